@@ -7,6 +7,7 @@ import (
 	"github.com/dgraph-io/badger/v3"
 
 	"github.com/glebziz/fs_db/internal/model/transactor"
+	"github.com/glebziz/fs_db/internal/utils/vhook"
 )
 
 type Item struct {
@@ -44,6 +45,7 @@ func New(dbPath string) (*Manager, error) {
 }
 
 func (m *Manager) Set(key []byte, val []byte) error {
+	vhook.AtID("badger.set", string(key))
 	return m.db.Update(func(txn *badger.Txn) error {
 		return txn.Set(key, val)
 	})
@@ -72,6 +74,7 @@ func (m *Manager) Get(key []byte) (data []byte, err error) {
 }
 
 func (m *Manager) Delete(key []byte) error {
+	vhook.AtID("badger.delete", string(key))
 	return m.db.Update(func(txn *badger.Txn) error {
 		return txn.Delete(key)
 	})
@@ -96,6 +99,7 @@ func (m *Manager) RunTransaction(ctx context.Context, fn transactor.TransactionF
 		return fn(ctx)
 	}
 
+	vhook.At("badger.txn")
 	return m.db.Update(func(txn *badger.Txn) error {
 		return fn(context.WithValue(ctx, ctxTxn{}, txn))
 	})
